@@ -37,7 +37,7 @@ def run(ctx, only=None, klass=None):
         "evaluations": rep["evaluations"] + frep["evaluations"], "distinct_nontrivial": rep["distinct_nontrivial"],
         "rule": rep["rule"], "samples": rep["samples"][:3],
         "hostile_renderings": rep["evaluations"], "generation_errors_accepted": rep["generation_errors"],
-        "positions": rep["positions"], "hostile_classes": rep["classes"], "input_distribution": rep["coverage"],
+        "positions": rep["positions"], "sparse_positions": rep.get("sparse_positions", 0), "hostile_classes": rep["classes"], "input_distribution": rep["coverage"],
         "helper_cases": frep["evaluations"], "helper_cases_distinct": frep["distinct_nontrivial"], "helper_mismatches": len(mism),
     }
     return common.conclude(ctx, cq, rep["violations"], broken, coverage,
